@@ -19,7 +19,7 @@ META = {
     "ready": True,
     "level": "model_checking",
     "technique": "TLA+ decision-procedure spec (declarative ELF rule vs operational model of wild's resolution phases) exhaustively checked by TLC; every enumerated configuration replayed into the real linker and compared by identity words, with GNU ld and lld as cross-oracles",
-    "level_text": "TLC enumerates the full product of file kinds (object, archive member, whole-archive member, shared, as-needed shared) x definition kinds (none, undefined, weak undefined, weak, strong, common 4/8, GNU unique) x visibilities for two files and one name (and three files in the thorough tier), with and without --allow-multiple-definition; for each configuration the rule's prediction (binding of every reference by (file, name), error class) is compared with what the real wild produced.",
+    "level_text": "TLC enumerates the full product of file kinds (object, archive member, whole-archive member, shared, as-needed shared) x definition kinds (none, undefined, weak undefined, weak, strong, common 4/8, GNU unique; plus a family with COMMON definitions of three sizes 4/8/16 in every order over three/four files, the size of the chosen common being part of the observed identity: st_size of the symbol in the output and the room really allocated for it) x visibilities for two files and one name (and three files in the thorough tier), with and without --allow-multiple-definition; for each configuration the rule's prediction (binding of every reference by (file, name), error class) is compared with what the real wild produced.",
     "level_note": "Bounds: <= 3 files, one name per C02 family (two in the C03 families), x86-64, non-PIE executables, data symbols, no COMDAT groups, no symbol versions. Which shared object provides a dynamic definition is not observed (only that the reference is dynamic). Cases where GNU ld and lld disagree with each other and neither supports the rule are not judged.",
     "engine": "tlc",
 }
@@ -40,9 +40,13 @@ def oracle_known(info):
 
 def run(ctx):
     plan = [("mc/SymRes_c02_quick.cfg", 900, 24 if ctx.quick else 1), ("mc/SymRes_c02_dup.cfg", 600, 6 if ctx.quick else 1)]
+    # COMMON definitions of three sizes in every order: replayed in full, the interesting orders are few
+    plan.append(("mc/SymRes_c02_common3.cfg", 600, 1))
     if not ctx.quick:
         plan.append(("mc/SymRes_c02_triple.cfg", 2400, 1))
+        plan.append(("mc/SymRes_c02_common4.cfg", 900, 2))
     cov = symres.run_plan(ctx, PROP, plan, ASPECTS, "both", oracle_known, skip_load_divergent=OWN)
+    cov.pop("_pool", None)
     return {
         "level": "model_checking",
         "coverage": cov,
